@@ -1,6 +1,6 @@
 //! C08 (ladder tie): the real lexer+parser+formatter on generated expressions of the modelled
 //! fragment, against the Lean ladder model (`parse` and `fmt` at token level).
-use crate::util::{Out, Rng, catch};
+use crate::util::{Out, Rng, catch, enc_str};
 use incan_core::lang::keywords::KeywordId as K;
 use incan_core::lang::operators::OperatorId as O;
 use incan_core::lang::punctuation::PunctuationId as P;
@@ -191,4 +191,106 @@ pub fn run(out: &mut Out, tier: &str, seed: u64) {
         }
     }
     out.meta(&serde_json::json!({"generated": n, "parsed_in_fragment": parsed, "rejected_by_parser": rejected}));
+    literals(out, &mut rng, tier);
+}
+
+/// The value of the first string / bytes literal token of a source text.
+fn first_literal(src: &str) -> Result<(Option<String>, Option<Vec<u8>>, usize), String> {
+    let toks = incan_syntax::lexer::lex(src).map_err(|e| e[0].message.clone())?;
+    for t in &toks {
+        match &t.kind {
+            TokenKind::String(s) => return Ok((Some(s.clone()), None, t.span.end)),
+            TokenKind::Bytes(b) => return Ok((None, Some(b.clone()), t.span.end)),
+            _ => {}
+        }
+    }
+    Err("no literal token".to_string())
+}
+
+/// Literal values through the real formatter and back through the real lexer (model: Syntax/Literals).
+fn literals(out: &mut Out, rng: &mut Rng, tier: &str) {
+    let n = if tier == "thorough" { 4000 } else { 600 };
+    let bytes_latin = |b: &[u8]| -> String { b.iter().map(|x| *x as char).collect() };
+    let (mut n_fb, mut n_fs, mut n_sb, mut n_ss) = (0u32, 0u32, 0u32, 0u32);
+    // every single byte, then random byte strings
+    let mut byte_values: Vec<Vec<u8>> = (0u16..256).map(|b| vec![b as u8]).collect();
+    byte_values.push(vec![]);
+    for _ in 0..n {
+        let len = 1 + rng.below(8) as usize;
+        byte_values.push((0..len).map(|_| match rng.below(6) { 0 => *rng.pick(&[b'\'', b'"', b'\\', b'\n', b'\t', b'\r', 0u8, 127, 255, b'x', b' ']), 1 => rng.below(32) as u8, 2 => 128 + rng.below(128) as u8, _ => 32 + rng.below(95) as u8 }).collect());
+    }
+    for v in &byte_values {
+        let lit: String = v.iter().map(|b| format!("\\x{b:02x}")).collect();
+        let src = format!("def g() -> None:\n    v = b\"{lit}\"\n");
+        let req = format!("c08 fmtbytes {}", enc_str(&bytes_latin(v)));
+        match catch(|| incan::format_source(&src)) {
+            Ok(Ok(f)) => {
+                let text = f.lines().find_map(|l| l.trim_start().strip_prefix("v = b\"").and_then(|r| r.strip_suffix('"'))).map(|x| x.to_string());
+                match text {
+                    Some(t) => {
+                        out.case(&req, &enc_str(&t));
+                        // oracle: the formatted literal is read back as the same bytes
+                        let back = first_literal(&f).ok().and_then(|(_, b, _)| b);
+                        out.case(&format!("c08 bytesback {}", enc_str(&bytes_latin(v))), &match back { Some(b) => enc_str(&bytes_latin(&b)), None => "relex-failed".to_string() });
+                    }
+                    None => out.case(&req, "literal-not-found"),
+                }
+            }
+            _ => out.case(&req, "format-failed"),
+        }
+        n_fb += 1;
+    }
+    // string values
+    let mut str_values: Vec<String> = vec![String::new(), "\"".into(), "\\".into(), "'".into(), "\n".into(), "\r\n".into(), "\t".into(), "\\n".into(), "\\\"".into(), "é\"ω".into(), "\\q".into(), "{x}".into()];
+    for _ in 0..n {
+        let len = 1 + rng.below(8) as usize;
+        str_values.push((0..len).map(|_| match rng.below(5) { 0 => *rng.pick(&['"', '\\', '\'', '\n', '\t', '\r', 'n', 't', 'x', '0']), 1 => *rng.pick(&['é', 'ω', '🎉', '\u{7f}', '\u{1}']), _ => (32 + rng.below(95) as u8) as char }).collect());
+    }
+    for v in &str_values {
+        // braces would start an interpolation in some literal forms; the plain string literal keeps them
+        let lit: String = v.chars().map(|c| match c { '"' => "\\\"".to_string(), '\\' => "\\\\".to_string(), '\n' => "\\n".to_string(), '\r' => "\\r".to_string(), '\t' => "\\t".to_string(), c => c.to_string() }).collect();
+        let src = format!("def g() -> None:\n    v = \"{lit}\"\n");
+        let req = format!("c08 fmtstr {}", enc_str(v));
+        match catch(|| incan::format_source(&src)) {
+            Ok(Ok(f)) => {
+                let text = f.lines().find_map(|l| l.trim_start().strip_prefix("v = \"").and_then(|r| r.strip_suffix('"'))).map(|x| x.to_string());
+                match text {
+                    Some(t) => {
+                        out.case(&req, &enc_str(&t));
+                        let back = first_literal(&f).ok().and_then(|(s, _, _)| s);
+                        out.case(&format!("c08 strback {}", enc_str(v)), &match back { Some(b) => enc_str(&b), None => "relex-failed".to_string() });
+                    }
+                    None => out.case(&req, "literal-not-found"),
+                }
+            }
+            _ => out.case(&req, "format-failed"),
+        }
+        n_fs += 1;
+    }
+    // arbitrary literal texts through the real lexer (fidelity of the scanner models, error paths included)
+    for _ in 0..n {
+        let len = rng.below(9) as usize;
+        let body: String = (0..len).map(|_| match rng.below(8) { 0 | 1 => '\\', 2 => *rng.pick(&['x', 'n', 't', 'r', '0', '\'', '+', 'q']), 3 => *rng.pick(&['0', '1', '9', 'a', 'f', 'A', 'F', 'g']), 4 => *rng.pick(&['é', 'ÿ', 'Ā']), 5 => if rng.chance(1, 3) { '"' } else { ' ' }, _ => (32 + rng.below(95) as u8) as char }).filter(|c| *c != '"').collect();
+        let esc_quote = if rng.chance(1, 5) { "\\\"z" } else { "" };
+        let text = format!("{body}{esc_quote}\"");
+        // bytes
+        let src = format!("x = b\"{text}\n");
+        let real = match catch(|| first_literal(&src)) {
+            Ok(Ok((_, Some(b), end))) => format!("ok {} {}", enc_str(&bytes_latin(&b)), src.len() - end),
+            Ok(Ok(_)) => "other-token".to_string(),
+            _ => "error".to_string(),
+        };
+        out.case(&format!("c08 scanbytes {}", enc_str(&format!("{text}\n"))), &real);
+        n_sb += 1;
+        // strings
+        let src = format!("x = \"{text}\n");
+        let real = match catch(|| first_literal(&src)) {
+            Ok(Ok((Some(s), _, end))) => format!("ok {} {}", enc_str(&s), src[end..].chars().count()),
+            Ok(Ok(_)) => "other-token".to_string(),
+            _ => "error".to_string(),
+        };
+        out.case(&format!("c08 scanstr {}", enc_str(&format!("\"{text}\n"))), &real);
+        n_ss += 1;
+    }
+    out.meta(&serde_json::json!({"bytes_values_formatted": n_fb, "string_values_formatted": n_fs, "bytes_texts_scanned": n_sb, "string_texts_scanned": n_ss}));
 }
